@@ -132,6 +132,8 @@ func externalMod(fn *ssa.Function, call *ssa.CallCommon) ModSet {
 				}
 			}
 		}
+	case strings.HasPrefix(name, "fmt.Print") || strings.HasPrefix(name, "fmt.Fprint"):
+		m.add(outLoc, LocInfo{Kind: "G", Val: types.Typ[types.Int]})
 	case strings.HasPrefix(name, "(*strings.Builder).Write") || name == "(*strings.Builder).Reset":
 		owner := fn.Signature.Recv().Type().Underlying().(*types.Pointer).Elem()
 		st := owner.Underlying().(*types.Struct)
